@@ -83,4 +83,27 @@ def flagsOf (g : Grp) : Option Flags := do
          tbStatic := ← atomInt g (pStatic ++ ["time_begin"]),
          tbEnv := ← atomInt g (pEnv ++ ["time_begin"]) }
 
+/-- The model's table of the defaults of draw_params.py as far as the selection logic reads them
+    (`MPDrawParams()`: BaseParam 29-33, DynamicObstacleParams 318-343, HistoryParams 137-141, OccupancyParams 127,
+    TrajectoryParams 256-259, StateParams 116, PhantomObstacleParams 348-349).  The translator tie proves it equal to
+    `flagsOf` of the tree extracted from the source (CRProps/T19.lean, `tie_default_flags`). -/
+def defaultFlags : Flags :=
+  { dyn := { tb := 0, te := 200, drawShape := true, drawIcon := false, drawDirection := false, drawSignals := true,
+             drawOccupancies := false, drawTrajectory := true, drawHistory := false, histSteps := 5, histStepSize := 1,
+             drawInitialState := false, showLabel := false, stateArrow := false, trajTb := 0, trajTe := 200,
+             trajContinuous := false },
+    ph := { tb := 0, te := 200, drawShape := true, drawOccupancies := false },
+    tbStatic := 0, tbEnv := 0 }
+
+mutual
+  /-- every group of the tree, at any depth, declares `name` (true of the fields of `BaseParam`, which every parameter
+      class inherits) -/
+  def _root_.CR.Params.Grp.allDeclare (name : String) : Grp → Bool
+    | .mk _ fs => fs.declares name && fs.allDeclareF name
+  def _root_.CR.Params.Fields.allDeclareF (name : String) : Fields → Bool
+    | .nil => true
+    | .atom _ _ r => r.allDeclareF name
+    | .grp _ g r => g.allDeclare name && r.allDeclareF name
+end
+
 end CR.Draw
